@@ -214,12 +214,20 @@ func (it *Interp) blockUntil(what string, ready func() bool) {
 // yield lets every other runnable goroutine run until it blocks.
 func (it *Interp) yield() {
 	me := it.cur
-	for _, g := range it.gs {
-		if g == me || g.done {
-			continue
+	// run the other goroutines until none of them can move (bounded: a spinning goroutine must not hang the path)
+	for pass := 0; pass < 64; pass++ {
+		moved := false
+		for _, g := range it.gs {
+			if g == me || g.done {
+				continue
+			}
+			if g.ready == nil || g.ready() {
+				it.switchTo(g, true)
+				moved = true
+			}
 		}
-		if g.ready == nil || g.ready() {
-			it.switchTo(g, true)
+		if !moved {
+			return
 		}
 	}
 }
